@@ -577,6 +577,8 @@ def classify(src, ext, vd, forced=None):
         if "imag_literal_leading_zero_underscore" in f and (
                 "Syntax error in simple statement list" in detail or re.search(r"found '_[0-9_]*[jJ]'", detail)):
             return "imag_literal_leading_zero_underscore"
+        if detail.startswith("Invalid operand type"):
+            return "static_operand_type_error_on_literal_operands"
         if "f-string expression" in detail:
             detail = detail.split(":")[0]
         return "valid_python_rejected:" + re.sub(r"'[^']*'", "'_'", detail)[:60].strip().replace(" ", "_")
